@@ -476,6 +476,11 @@ impl CommitPipeline {
 		}
 	}
 
+	#[cfg(feature = "verif-hooks")]
+	pub(crate) fn available_permits(&self) -> usize {
+		self.commit_sem.available_permits()
+	}
+
 	pub(crate) fn get_visible_seq_num(&self) -> u64 {
 		self.visible_seq_num.load(Ordering::Acquire)
 	}
